@@ -305,24 +305,30 @@ def _gen_unknown(rng, tier):
 
 # raw_parse of ANY 74 bytes behind each known version (and some unknown ones): accepted exactly when BIP32 says the key is
 # well-formed, every field returned as it stands in the bytes
-contract("verif.harness.hd.priv_parse_parts", props=("C08",), nl_uf=True,
-         params={"version": ("choice", _PRV_VERS + _PUB_VERS[:1] + _PUB_VERS[5:6] + _UNKNOWN_VERS[:2]), "rest": "bytes:74"},
-         ensures=["implies(returns(), spec.hd.xkey_reject_reason%s is None)" % _RAW,                      # accepts only well-formed keys
+def _parse_contract(name, versions, ensures, private, **kw):
+    contract(name, props=("C08",), nl_uf=True, params={"version": ("choice", versions), "rest": "bytes:74"},
+             ensures=ensures, gen=_gen_parts(private), **kw)
+
+
+_ENS_PRIV_PARSE = (["implies(returns(), spec.hd.xkey_reject_reason%s is None)" % _RAW,                      # accepts only well-formed keys
                   "implies(spec.hd.xkey_reject_reason%s is None and spec.hd.version_info(version)[1] == 'prv', returns())" % _RAW,
                   "implies(returns(), spec.hd.version_info(version)[1] == 'prv')"] + _PARSE_FIELDS +
                  ["implies(returns(), rest[41] == 0 and result[5] == int.from_bytes(rest[42:74], 'big'))",
                   "implies(returns(), result[6] == spec.hd.version_info(version)[2])",
-                  "implies(returns(), result[7] == spec.hd.version_pub('x' if result[6] == 'mainnet' else 't'))"],
-         gen=_gen_parts(True))
+                  "implies(returns(), result[7] == spec.hd.version_pub('x' if result[6] == 'mainnet' else 't'))"])
+# quick tier: one version of each family and kind; thorough tier: every version of the table
+_parse_contract("verif.harness.hd.priv_parse_parts", [_PRV_VERS[0], _PRV_VERS[7], _PUB_VERS[0], _UNKNOWN_VERS[1]], _ENS_PRIV_PARSE, True, timeout_ms=60000)
+_parse_contract("verif.harness.hd.priv_parse_parts#all_versions", _PRV_VERS + _PUB_VERS + _UNKNOWN_VERS, _ENS_PRIV_PARSE, True,
+                tiers=("thorough",), max_paths=20000)
 
-contract("verif.harness.hd.pub_parse_parts", props=("C08",), nl_uf=True,
-         params={"version": ("choice", _PUB_VERS + _PRV_VERS[:1] + _PRV_VERS[5:6] + _UNKNOWN_VERS[:2]), "rest": "bytes:74"},
-         ensures=["implies(returns(), spec.hd.xkey_reject_reason%s is None)" % _RAW,
+_ENS_PUB_PARSE = (["implies(returns(), spec.hd.xkey_reject_reason%s is None)" % _RAW,
                   "implies(spec.hd.xkey_reject_reason%s is None and spec.hd.version_info(version)[1] == 'pub', returns())" % _RAW,
                   "implies(returns(), spec.hd.version_info(version)[1] == 'pub')"] + _PARSE_FIELDS +
                  ["implies(returns(), spec.hd.serP(result[5]) == rest[41:74])",
-                  "implies(returns(), result[6] == spec.hd.version_info(version)[2])"],
-         gen=_gen_parts(False))
+                  "implies(returns(), result[6] == spec.hd.version_info(version)[2])"])
+_parse_contract("verif.harness.hd.pub_parse_parts", [_PUB_VERS[0], _PUB_VERS[9], _PRV_VERS[0], _UNKNOWN_VERS[1]], _ENS_PUB_PARSE, False, timeout_ms=60000)
+_parse_contract("verif.harness.hd.pub_parse_parts#all_versions", _PUB_VERS + _PRV_VERS + _UNKNOWN_VERS, _ENS_PUB_PARSE, False,
+                tiers=("thorough",), max_paths=20000)
 
 # every version outside the SLIP-132 table is refused by both parsers
 contract("verif.harness.hd.priv_parse_parts#unknown_version", props=("C08",), nl_uf=True,
@@ -474,8 +480,7 @@ _s("verif.harness.hd.traverse_priv", params={"seed": ("bytes", 16, 64), "path": 
    requires=["spec.hd.master_defined(seed)", "spec.hd.path_indices(path) is None or %s is not None" % _DP],
    ensures=["implies(spec.hd.path_valid(path), returns())",                         # every BIP32 path is derivable
             "implies(returns(), spec.hd.path_indices(path) is not None)",          # and nothing else is taken for a path
-            "implies(returns() and spec.hd.path_indices(path) is not None, result[0:5] == %s)" % _DP,
-            "implies(returns() and spec.hd.path_indices(path) is not None, spec.curve.same(result[5], spec.curve.mul_G(%s[0])) and result[6:10] == %s[1:5])" % (_DP, _DP)],
+            "implies(returns() and spec.hd.path_indices(path) is not None, spec.hd.priv_fields_equal(result, %s))" % _DP],
    gen=_gen_traverse(False))
 
 _DQ = "spec.hd.derive_pub(spec.hd.neuter(spec.hd.master(seed)), spec.hd.path_indices(path))"
@@ -484,7 +489,7 @@ _s("verif.harness.hd.traverse_pub", params={"seed": ("bytes", 16, 64), "path": S
    ensures=["implies(spec.hd.path_valid(path) and spec.hd.path_is_public(path), returns())",
             "implies(spec.hd.path_indices(path) is not None and not spec.hd.path_is_public(path), raises(ValueError))",   # hardened: refused
             "implies(returns(), spec.hd.path_is_public(path))",
-            "implies(returns() and spec.hd.path_is_public(path), spec.curve.same(result[0], %s[0]) and result[1:5] == %s[1:5])" % (_DQ, _DQ)],
+            "implies(returns() and spec.hd.path_is_public(path), spec.hd.pub_fields_equal(result, %s))" % _DQ],
    gen=_gen_traverse(True))
 
 
@@ -603,3 +608,25 @@ _s("verif.harness.hd.parse_text", params={"s": STR},
             "implies(returns() and spec.hd.xkey_text_decode(s) is not None, result[1] == spec.hd.xkey_text_decode(s))",   # and loses nothing
             "implies(spec.hd.xkey_text_decode(s) is not None, returns())"],
    gen=_gen_parse_text)
+
+
+# ---------------------------------------------------------------------------- children inherit network and version bytes
+def _gen_keep(lo, hi):
+    def gen(rng, tier):
+        idx = [v for v in IDX if lo <= v <= hi]
+        n = 0
+        while True:
+            L, vprv, vpub = _slip_pairs()[n % 10]
+            yield {"k": rng.choice(KS), "c": rand_bytes(rng, 32), "i": idx[n % len(idx)] if n < 40 else rng.randrange(lo, hi + 1),
+                   "network": NETWORKS[n % 4], "priv_version": vprv, "pub_version": vpub}
+            n += 1
+    return gen
+
+
+for _rng_name, _lo, _hi, _extra in (("normal", 0, H - 1, ["result[5] == network and result[6] == pub_version"]), ("hardened", H, 2**32 - 1, [])):
+    contract("verif.harness.hd.child_keeps_versions#" + _rng_name, props=("C08",), nl_uf=True,
+             params={"k": SECRET, "c": CC, "i": ("int", _lo, _hi), "network": ("choice", NETWORKS), "priv_version": "bytes:4", "pub_version": "bytes:4"},
+             requires=["spec.hd.ckd_priv_defined((k, c), i)"],
+             ensures=["returns()", "result[0] == network and result[1] == priv_version and result[2] == pub_version",
+                      "result[3] == network and result[4] == network"] + _extra,
+             gen=_gen_keep(_lo, _hi))
